@@ -3,6 +3,32 @@
 import json, os
 VERIF = os.path.normpath(os.path.join(os.path.dirname(os.path.abspath(__file__)), ".."))
 CLAIMED = {
+ "C01": dict(
+   text="Machine-checked proof (Coq), for every data set whose kernel-computed certificate holds: the closed form C.exp(-Lt).C^-1.N0 is the unique solution of the decay ODE system assembled from half-lives, branching fractions and progeny (all real t, all N0); what the code computes "
+        "(E filled only at the indices read off the sparsity pattern of C) equals that closed form, nuclides outside the reported set hold exactly zero (pattern certificate: equal patterns, transitively closed, = reachability closure); the reference values of the correspondence are PROVED interval enclosures (coq-interval) of the closed form. "
+        "The double-precision forward error (1e-11 x ancestors' atoms) is decided per case against those enclosures.",
+   note="Trusted: Coq kernel+vm_compute; Reals axioms, Uint63/PrimFloat primitives; coq-interval; tr_data; decay() control flow hand-modelled (tie: recorded source + correspondence). No rounding-analysis theorem for ALL inputs (partial).",
+   technique="Coq proof (ODE solution + code-shape refinement + proved interval enclosure) + per-case forward-error correspondence",
+   ref="DESIGN.md section 4 C01"),
+ "C02": dict(
+   text="Machine-checked proof (Coq): with the exact matrices the closed form satisfies the decay ODEs and the initial condition identically in t (t is a universally quantified real, not a sample) and is the unique solution; both pickle generations identical. "
+        "Relative accuracy 1e-13 of InventoryHP is decided per case against the proved interval enclosure (up to 2200 bits) for deep chains and mixed inventories.",
+   note="Trusted: as C01; SymPy Rational/evalf as oracles. The property as written is false below ~1e-315 x ancestors' atoms (known findings F10a/F10b, checked unguarded on the recorded inputs every run).",
+   technique="Coq proof (ODE identity for all real t) + high-precision interval correspondence",
+   ref="DESIGN.md section 4 C02"),
+ "C03": dict(
+   text="Machine-checked proof (Coq), for every certified data set: the cumulative decays of a radioactive nuclide are the Riemann integral of its activity under the exact solution (Coquelicot is_RInt), stable nuclides contribute/list nothing, the atom balance N_i(t)-N_i(0) = -D_i + sum_p b_pi D_p holds for every nuclide; "
+        "the code's integrated-exponential product equals that integral; proved interval enclosures; per-case correspondence for both classes.",
+   note="Trusted: as C01.",
+   technique="Coq proof (FTC + algebraic atom balance + code-shape refinement) + interval correspondence",
+   ref="DESIGN.md section 4 C03"),
+ "C07": dict(
+   text="Machine-checked proof (Coq), for every certified data set over the reals: decay for zero time is the identity, decay(t2) after decay(t1) = decay(t1+t2), any splitting into k steps (induction over the list), linearity in the inventory. "
+        "Composed implementation calls (k<=4 splits, a*X+Y) are checked against proved enclosures with k x the single-call bound, both classes.",
+   note="Trusted: as C01.",
+   technique="Coq proof (semigroup + linearity) + composition correspondence against interval enclosures",
+   ref="DESIGN.md section 4 C07"),
+
  "C08": dict(
    text="Machine-checked proof (Coq), for every number domain and every data set, about the state-machine model of the inventory operations: + and - are the nuclide-wise sum/difference and nothing else changes, * and / act pointwise, remove is the restriction, "
         "absent nuclides / non-nuclide keys are refused, the constructor keeps one entry per supplied key and refuses two spellings of one nuclide, a raising mutating call leaves the state unchanged, and alphabetical order is an invariant of operation sequences of any length (induction over the op list). "
